@@ -1662,4 +1662,129 @@ theorem pinned_shared :
     Obj.obj 0 ∈ reachable (deepState false pinnedHeap 0).2 (deepState false pinnedHeap 0).1 ∧
     Obj.obj 0 ∈ reachable (deepState false pinnedHeap 0).2 0 := by decide
 
+/-! ### fitted clusters (the `Fitted` hypothesis of `deepCopy_same_view`) -/
+
+/-- the four array-valued attributes the view reports are present. -/
+def fitC (c : Cluster) : Prop :=
+  c.mean ≠ none ∧ c.empCov ≠ none ∧ c.trainInv ≠ none ∧ c.computedCov ≠ none
+
+/-- mean and empirical covariance are present (after the statistics phase). -/
+def halfC (c : Cluster) : Prop := c.mean ≠ none ∧ c.empCov ≠ none
+
+def FittedP (h : Heap) (s : Nat) : Prop :=
+  ∀ st : State, h.states[s]? = some st → ∀ r ∈ st.clusters, fitC (h.cluster r)
+
+def HalfP (h : Heap) (s : Nat) : Prop :=
+  ∀ st : State, h.states[s]? = some st → ∀ r ∈ st.clusters, halfC (h.cluster r)
+
+def fitV (v : ClusterView) : Prop :=
+  v.mean ≠ none ∧ v.empCov ≠ none ∧ v.trainInv ≠ none ∧ v.computedCov ≠ none
+
+theorem fitC_iff_view (c : Cluster) : fitC c ↔ fitV (clusterView c) := by
+  simp [fitC, fitV, clusterView]
+
+/-- fittedness is a property of the view. -/
+theorem FittedP_iff_view (h : Heap) (s : Nat) :
+    FittedP h s ↔ ∀ v, view h s = some v → ∀ cv ∈ v.clusters, fitV cv := by
+  unfold FittedP view Heap.state?
+  cases hs : h.states[s]? with
+  | none => simp
+  | some st =>
+    simp only [Option.some.injEq, forall_eq', Option.map_some, List.mem_map,
+      forall_exists_index, and_imp, forall_apply_eq_imp_iff₂]
+    exact forall₂_congr (fun r _ => fitC_iff_view _)
+
+theorem FittedP_of_view {h h' : Heap} {t : Nat} (e : view h' t = view h t) (hf : FittedP h t) :
+    FittedP h' t := by
+  rw [FittedP_iff_view] at hf ⊢
+  rw [e]; exact hf
+
+theorem stats_half {h : Heap} (ho : OwnedP h) {s : Nat} (hi : InvB h s = true) :
+    HalfP (statsPhase h s).2 (statsPhase h s).1 := by
+  obtain ⟨st, hs⟩ := exists_of_InvB hi
+  obtain ⟨e, F⟩ := statsPhase_fresh ho hs
+  obtain ⟨y, hy, hc⟩ := F.cell
+  rw [e]
+  intro st' hst' r' hr'
+  rw [hy] at hst'
+  obtain ⟨r, i, _, e'⟩ := hc r' (by rw [Option.some.inj hst']; exact hr')
+  rw [e']
+  exact ⟨by simp [statsOf], by simp [statsOf]⟩
+
+theorem opt_fitted {h : Heap} (ho : OwnedP h) {s : Nat} (hi : InvB h s = true) (hh : HalfP h s) :
+    FittedP (optPhase h s).2 (optPhase h s).1 := by
+  obtain ⟨st, hs⟩ := exists_of_InvB hi
+  rw [optPhase_eq hs]
+  obtain ⟨y, hy, hc⟩ := (copyState'_fresh optOf 2 (ho.wf s st hs).2.1 hs).cell
+  intro st' hst' r' hr'
+  rw [hy] at hst'
+  obtain ⟨r, i, hr, e'⟩ := hc r' (by rw [Option.some.inj hst']; exact hr')
+  show fitC ((copyState' optOf 2 h s st).cluster r')
+  rw [e']
+  obtain ⟨m1, m2⟩ := hh st hs r hr
+  exact ⟨m1, m2, by simp [optOf], by simp [optOf]⟩
+
+theorem fitC_deepOf (c : Cluster) (i : Nat) : fitC (deepOf c i) := by
+  simp [fitC, deepOf, copyArr]
+
+theorem fitC_setMembers {c : Cluster} (m : List Nat) (hc : fitC c) : fitC (setMembers c m) := by
+  unfold setMembers
+  split
+  · exact hc
+  · split
+    · exact hc
+    · exact hc
+
+theorem assign_fitC {h : Heap} (s : Nat) (lab : Nat × List Nat) {r : Nat} (hc : fitC (h.cluster r)) :
+    fitC ((assign h s lab).cluster r) := by
+  cases hs : h.states[s]? with
+  | none => rw [assign_eq_of_none hs]; exact hc
+  | some st =>
+    by_cases he : st.labels.map (·.2) = some lab.2
+    · rw [assign_eq_of_eq hs he]; exact hc
+    · rw [assign_eq_of_ne hs he]
+      split
+      · rw [clearMembership_eq]
+        exact wfold_prop (fun r => some r) (fun _ c => { c with members := [] }) fitC
+          (fun _ _ hc => hc) _ (h.setState s _) hc
+      · rw [updateMembership_eq]
+        exact wfold_prop _ _ fitC (fun _ _ hc => fitC_setMembers _ hc) _ (h.setState s _) hc
+
+/-- the state handed on by the relabelling phase owns deep copies, whose arrays are all present. -/
+theorem relabel_fitted_new {h : Heap} (ho : OwnedP h) {s : Nat} (hi : InvB h s = true)
+    (newLabels : List Nat) (cost : Nat) :
+    FittedP (relabelPhase h s newLabels cost).2 (relabelPhase h s newLabels cost).1 := by
+  obtain ⟨st, hs⟩ := exists_of_InvB hi
+  rw [relabelPhase_eq hs]
+  have co := refreshScoring_CO h st.clusters (h.argsOf st.args).K
+  generalize refreshScoring h st.clusters (h.argsOf st.args).K = h0 at *
+  have ho0 : OwnedP h0 := co.shape.owned ho
+  have hs0 : h0.states[s]? = some st := by rw [co.states]; exact hs
+  obtain ⟨y, hy, hc⟩ := (copyState_fresh deepOf 5 (ho0.wf s st hs0).2.1 hs0).cell
+  generalize copyState deepOf 5 h0 s st = h3 at *
+  generalize h0.states.length = n at *
+  have hy4 : h3.fresh.2.states[n]? = some y := hy
+  obtain ⟨⟨l, hn5, -⟩, -⟩ := assign_states hy4 (h3.fresh.1, newLabels)
+  have hcell : ∀ r' ∈ y.clusters,
+      fitC ((assign h3.fresh.2 n (h3.fresh.1, newLabels)).cluster r') := by
+    intro r' hr'
+    apply assign_fitC
+    obtain ⟨r, i, _, e⟩ := hc r' hr'
+    show fitC (h3.cluster r')
+    rw [e]; exact fitC_deepOf _ _
+  generalize assign h3.fresh.2 n (h3.fresh.1, newLabels) = h5 at *
+  have hlt := (List.getElem?_eq_some_iff.mp hn5).1
+  have e : setCost h5 n cost = h5.setState n { ({ y with labels := some l } : State) with cost := some cost } := by
+    unfold setCost; rw [show h5.state? n = some _ from hn5]
+  intro st' hst' r' hr'
+  simp only at hst' hr' ⊢
+  rw [e] at hst' ⊢
+  have : (h5.setState n { ({ y with labels := some l } : State) with cost := some cost }).states[n]? =
+      some { ({ y with labels := some l } : State) with cost := some cost } := by
+    show (h5.states.set n _)[n]? = _
+    rw [List.getElem?_set_self hlt]
+  rw [this] at hst'
+  have hr'' : r' ∈ y.clusters := by rw [← Option.some.inj hst'] at hr'; exact hr'
+  exact hcell r' hr''
+
 end FastTicc.Heap
